@@ -214,7 +214,7 @@ func GenConfDoc(rng *rand.Rand, mcast4, mcast6 []string) *ConfDoc {
 		has4 = false
 	}
 	// pick one rejection to inject (or none)
-	rejects := []string{"wrong-family", "bad-address", "bad-port", "plugins-missing", "plugins-empty", "plugins-scalar", "plugins-map", "item-two-keys", "item-scalar", "listen-and-interface", "no-section"}
+	rejects := []string{"wrong-family", "bad-address", "bad-port", "plugins-missing", "plugins-empty", "plugins-scalar", "plugins-map", "item-two-keys", "item-scalar", "listen-and-interface", "no-section", "section-not-a-map"}
 	reject := ""
 	if rng.Intn(3) == 0 {
 		reject = rejects[rng.Intn(len(rejects))]
@@ -239,6 +239,13 @@ func GenConfDoc(rng *rand.Rand, mcast4, mcast6 []string) *ConfDoc {
 		inj := ""
 		if reject != "" && ((v6 && rejectIn == 6) || (!v6 && rejectIn == 4)) {
 			inj = reject
+		}
+		if inj == "section-not-a-map" {
+			// the section is there but is no mapping (a list after an indentation slip, a scalar): it has no
+			// plugins list, whatever else the file holds
+			form := []string{"\n  - plugins:\n      - dns: 1.1.1.1\n", "\n  - listen: '%ve0'\n  - plugins:\n      - dns: 1.1.1.1\n", " enabled\n", " 4\n", " true\n", " [dns, router]\n", " ''\n"}[rng.Intn(7)]
+			sb.WriteString(name + ":" + form)
+			return w
 		}
 		fmt.Fprintf(&sb, "%s:\n", name)
 		writePlugins := func() {
